@@ -1,0 +1,79 @@
+//go:build verif
+
+// Read-only views of the receive-path bookkeeping of a SecureChannel for the
+// verification harness (/verif/harness/chunks). Compiled only with -tags verif.
+// Nothing here modifies channel state.
+
+package uasc
+
+// VerifChunkStats describes what the channel currently retains for
+// incomplete (not yet final) messages and which requests wait for a response.
+type VerifChunkStats struct {
+	// OpenIDs is the number of request ids that have buffered intermediate chunks.
+	OpenIDs int
+	// Chunks is the total number of buffered chunks.
+	Chunks int
+	// DataBytes is the sum of len(chunk.Data) over all buffered chunks.
+	DataBytes int
+	// PinnedBytes is the sum of cap(chunk.Data): the part of each receive
+	// buffer that stays reachable through the buffered chunk.
+	PinnedBytes int
+	// MaxPerID is the largest sum of len(chunk.Data) held for one request id.
+	MaxPerID int
+	// MaxChunksPerID is the largest number of chunks held for one request id.
+	MaxChunksPerID int
+	// Handlers is len(handlers): requests waiting for a response.
+	Handlers int
+	// HandlerIDs are the request ids with a registered response handler.
+	HandlerIDs []uint32
+}
+
+// VerifChunkStats returns a snapshot of the chunk and handler tables.
+func (s *SecureChannel) VerifChunkStats() VerifChunkStats {
+	var st VerifChunkStats
+	s.chunksMu.Lock()
+	st.OpenIDs = len(s.chunks)
+	for _, cs := range s.chunks {
+		n := 0
+		for _, c := range cs {
+			n += len(c.Data)
+			st.PinnedBytes += cap(c.Data)
+		}
+		st.Chunks += len(cs)
+		st.DataBytes += n
+		if n > st.MaxPerID {
+			st.MaxPerID = n
+		}
+		if len(cs) > st.MaxChunksPerID {
+			st.MaxChunksPerID = len(cs)
+		}
+	}
+	s.chunksMu.Unlock()
+	s.handlersMu.Lock()
+	st.Handlers = len(s.handlers)
+	for id := range s.handlers {
+		st.HandlerIDs = append(st.HandlerIDs, id)
+	}
+	s.handlersMu.Unlock()
+	return st
+}
+
+// VerifReceiveLocked reports whether the receive gate (rcvLocker) is currently
+// set. The dispatcher of a client channel waits on this gate after it handed
+// an OpenSecureChannelResponse to a handler; only open() and Close() clear it.
+func (s *SecureChannel) VerifReceiveLocked() bool {
+	s.rcvLocker.lockMu.Lock()
+	defer s.rcvLocker.lockMu.Unlock()
+	return s.rcvLocker.bLock
+}
+
+// VerifConfigPolicy returns the security policy URI and mode currently stored
+// in the channel's configuration.
+func (s *SecureChannel) VerifConfigPolicy() (string, int) {
+	return s.cfg.SecurityPolicyURI, int(s.cfg.SecurityMode)
+}
+
+// VerifLimits returns the negotiated transport limits the receive path uses.
+func (s *SecureChannel) VerifLimits() (receiveBufSize, maxMessageSize, maxChunkCount uint32) {
+	return s.c.ReceiveBufSize(), s.c.MaxMessageSize(), s.c.MaxChunkCount()
+}
